@@ -70,6 +70,7 @@ EXPLANATION = ("Theorems over ALL event sequences of the ledger machine (any mix
 LIMIT = sys.get_int_max_str_digits() or 4300
 BIG = 10 ** (LIMIT + 10)
 FINAL_CID = 9999
+TIMED_EXPIRY = 100
 # x: an Exception; bc/bg/bb/bs/bk: BaseExceptions that are not Exceptions (asyncio.CancelledError, GeneratorExit, a user
 # class, SystemExit, KeyboardInterrupt) — answered like any other unless the side is configured to propagate bs / bk locally
 # vv / xv: the handler returns (payload, value) / raises ValueError(payload, value) where `value` is the boundary value of the
@@ -348,10 +349,21 @@ class Run(object):
         k = act[0]
         if k == "cfg":
             return
-        if k in ("s", "a"):
-            self.call("A", k, self.to_wire(act[1]))
-            if k == "a":
+        if k in ("s", "a", "t"):
+            self.call("A", "a" if k == "t" else k, self.to_wire(act[1]))
+            if k in ("a", "t"):
                 self.a_async.append(act[1][0])
+            if k == "t":
+                # a timed request: its reply must be reported whenever it is looked at, also after the deadline
+                ar = self.asyncs.get(("A", act[1][0]))
+                if ar is not None:
+                    ar.set_expiry(TIMED_EXPIRY)
+        elif k == "adv":
+            # everything in flight is delivered first (virtual time stands still meanwhile), THEN the clock jumps
+            # past every deadline: replies that arrived in time are looked at after their deadline
+            self.drain()
+            if not ca.closed:
+                self.net.clock.now += 10 * TIMED_EXPIRY
         elif k == "w":
             if not self.a_async:
                 return
@@ -640,6 +652,9 @@ def canonical(run, mline):
     mod = []
     if o.get("args_altered"):
         impl.append("argument-values-altered-in-transit=%s" % o["args_altered"])
+    changed = sorted(c for c, (first, now) in o.get("final", {}).items() if first != now)
+    if changed:
+        impl.append("results-that-changed-after-they-were-given=%s" % changed)
     pm = parse_model(mline)
     if pm is None:
         return ("(impl) " + " ".join(impl), "(model) " + mline)
@@ -718,7 +733,12 @@ def gen_program(r, size, heavy, local=None):
         elif k < 14:
             prog.append(["w", r.below(8)])
         elif k < 15:
-            prog.append(["f"])
+            if r.chance(1, 2):
+                prog.append(["f"])
+            else:
+                prog.append(["t", top(r.choice([0, 0, 1]))])
+                if r.chance(2, 3):
+                    prog.append(["adv"])
         elif k < 18:
             prog.append(["u", r.choice(["handler", "arity", "localid", "label"])])
         else:
@@ -752,6 +772,10 @@ def boundary_programs():
             out.append([["a", [1, [], "xv", t]], ["w", 0]])
         if i % 5 == 0:
             out.append([["s", [1, [["s", [2, [], "vv", t]]], "xv", t]]])
+    # timed requests whose reply arrives before the deadline and is looked at (awaited, read, read again) after it
+    for o in ("v", "x", "r", "vv", "ei"):
+        out.append([["t", [1, [], o, "S97,55296"]], ["s", [2, [], "v"]], ["adv"], ["w", 0]])
+        out.append([["t", [1, [["s", [2, [], "v"]]], o]], ["adv"], ["t", [3, [], o]], ["adv"], ["w", 1], ["w", 0]])
     # SystemExit / KeyboardInterrupt with the matching propagate_*_locally switch on at the serving side: routed locally by
     # configuration (the other one, and every other BaseException, is still answered)
     for kind, lo, other in (("SystemExit", "bs", "bk"), ("KeyboardInterrupt", "bk", "bs")):
@@ -774,9 +798,183 @@ def stats_of(prog):
             walk(sub, d + 1)
     for a in prog:
         kinds.add(a[0] if a[0] not in ("u", "j", "cfg") else a[0] + ":" + a[1])
-        if a[0] in ("s", "a"):
+        if a[0] in ("s", "a", "t"):
             walk(a[1], 0)
     return kinds, outs, depth[0]
+
+
+# ---------------------------------------------------------------------------------------------- a second thread in the window
+# The ledger machine registers the waiter and writes the request in ONE step (`issue`).  On the code this is a window:
+# another thread of the same side may receive and dispatch the reply at any point between the request's bytes leaving and
+# `_async_request` (and `async_request`) returning.  These few runs (real socket pair, real threads, gated — no timing)
+# put exactly that other thread's `serve()` at each such point and check that the response still reaches its requester.
+import socket
+import threading
+
+WINDOW_CEILING = 3.0
+WINDOW_GATES = ("in_write", "after_send", "after_async_request")
+WINDOW_KINDS = ("async_value", "async_exception", "sync_value")
+
+
+class Infrastructure(Exception):
+    """a window run could not be set up: exit 2, never a violation"""
+
+
+class GateSock(object):
+    """a real socket; when armed, the first send() — once its bytes are really out — calls `hook` before returning"""
+    def __init__(self, real):
+        self._real = real
+        self.hook = None
+
+    def send(self, data, *a):
+        self._real.sendall(data)
+        h, self.hook = self.hook, None
+        if h is not None:
+            h()
+        return len(data)
+
+    def __getattr__(self, name):
+        return getattr(self._real, name)
+
+
+class WindowSvc(rpyc.Service):
+    def exposed_add(self, a, b):
+        return a + b
+
+    def exposed_fail(self, a):
+        raise ValueError(a)
+
+
+def run_window(kind, gate):
+    from rpyc.core.channel import Channel
+    from rpyc.core.protocol import Connection
+    from rpyc.core.stream import SocketStream
+    try:
+        a, b = socket.socketpair()
+    except Exception as ex:  # noqa
+        raise Infrastructure("socketpair: %r" % (ex,))
+    gs = GateSock(a)
+    stra, strb = SocketStream(gs), SocketStream(b)
+    cfg = {"sync_request_timeout": WINDOW_CEILING}
+    ca = rpyc.VoidService()._connect(Channel(stra), cfg)
+    cb = WindowSvc()._connect(Channel(strb), cfg)
+    res = dict(kind=kind, gate=gate, pumps=0, pumped_dispatch=None, outcome=None, gate_reached=False)
+    pump_req, pump_done, stop = threading.Event(), threading.Event(), threading.Event()
+
+    def quiet(fn):
+        try:
+            fn()
+        except BaseException:  # noqa
+            pass
+
+    def second_thread():
+        # another thread of side A: when asked, it serves the connection once (waiting for the reply to arrive)
+        while True:
+            pump_req.wait()
+            pump_req.clear()
+            if stop.is_set():
+                return
+            try:
+                res["pumped_dispatch"] = bool(ca.serve(WINDOW_CEILING / 2))
+            except BaseException as ex:  # noqa
+                res["pumped_dispatch"] = "raised %s" % type(ex).__name__
+            pump_done.set()
+
+    def pump():
+        res["gate_reached"] = True
+        res["pumps"] += 1
+        pump_done.clear()
+        pump_req.set()
+        pump_done.wait(WINDOW_CEILING)
+
+    tb = threading.Thread(target=lambda: quiet(cb.serve_all), daemon=True, name="win-B")
+    t2 = threading.Thread(target=second_thread, daemon=True, name="win-A2")
+    tb.start()
+    t2.start()
+    state = {"sent": False, "done": False}
+    inner = getattr(Connection, "_async_request", None)
+    outer = getattr(Connection, "async_request", None)
+
+    def tracer(frame, event, arg):
+        code = frame.f_code
+        if (inner is not None and code is inner.__code__) or (outer is not None and code is outer.__code__):
+            return local
+        return None
+
+    def local(frame, event, arg):
+        if state["sent"] and not state["done"] and event in ("line", "return"):
+            is_inner = inner is not None and frame.f_code is inner.__code__
+            if (gate == "after_send" and is_inner) or (gate == "after_async_request" and not is_inner):
+                state["done"] = True
+                pump()
+        return local
+    try:
+        root = ca.root
+        fn = root.fail if kind == "async_exception" else root.add
+        expected = ("X", 5) if kind == "async_exception" else ("R", 12)
+
+        def mark():
+            state["sent"] = True
+            if gate == "in_write":
+                state["done"] = True
+                pump()
+        gs.hook = mark
+        if gate != "in_write":
+            if inner is None or outer is None:
+                res["outcome"] = "skipped"
+                return res
+            sys.settrace(tracer)
+        try:
+            try:
+                if kind == "sync_value":
+                    v = fn(5, 7)
+                else:
+                    ar = rpyc.async_(fn)(5) if kind == "async_exception" else rpyc.async_(fn)(5, 7)
+                    sys.settrace(None)
+                    ar.set_expiry(WINDOW_CEILING)
+                    v = ar.value
+                got = ("R", v)
+            except BaseException as ex:  # noqa
+                a0 = getattr(ex, "args", ())
+                if type(ex).__name__ in ("AsyncResultTimeout", "TimeoutError"):
+                    got = ("TO", 0)
+                elif isinstance(ex, EOFError):
+                    got = ("EOF", 0)
+                else:
+                    got = ("X", a0[0] if a0 and type(a0[0]) is int else 0)
+        finally:
+            sys.settrace(None)
+        res["outcome"] = "%s%d" % got
+        res["expected"] = "%s%d" % expected
+    finally:
+        stop.set()
+        pump_req.set()
+        for st in (stra, strb):
+            try:
+                st.close()
+            except Exception:  # noqa
+                pass
+        tb.join(WINDOW_CEILING)
+        t2.join(WINDOW_CEILING)
+    if res["outcome"] != "skipped" and not res["gate_reached"]:
+        raise Infrastructure("the gate %s was never reached (%s)" % (gate, kind))
+    return res
+
+
+def window_oracle(res):
+    if res["outcome"] == "skipped":
+        return None
+    if res["outcome"] != res["expected"]:
+        return ("%s request with another thread of the same side serving %s: the other thread dispatched the reply (%r), "
+                "the requester got %s instead of %s" % (res["kind"], {"in_write": "while the request was being written",
+                "after_send": "right after `_send` returned inside `_async_request`",
+                "after_async_request": "right after `_async_request` returned"}[res["gate"]], res["pumped_dispatch"],
+                res["outcome"], res["expected"]), "C08:reply-dispatched-by-another-thread-is-lost")
+    return None
+
+
+def window_cases():
+    return [dict(kind="window", request=k, gate=g) for k in WINDOW_KINDS for g in WINDOW_GATES]
 
 
 # ---------------------------------------------------------------------------------------------- correspondence
@@ -797,7 +995,7 @@ def correspondence(ctx):
               "model. Non-trivial = at least one request; distinct = distinct (action kinds, outcome set, depth, "
               "frame-count class).")
     r = Rng(ctx.seed).fork("c08")
-    n_rand = ctx.budget(1500, 40000)
+    n_rand = ctx.budget(1300, 40000)
     deadline = time.time() + ctx.budget(42, 700)
     progs = boundary_programs()
     for i in range(n_rand):
@@ -861,6 +1059,33 @@ def correspondence(ctx):
         if got != expect[o]:
             c.disagreements.append(dict(case=dict(kind="history", program=[["s", [1, [], {"u": "v"}.get(o, o)]]]),
                                         impl=expect[o], model=got, ops="ledger dispatch " + o))
+    # the reply dispatched by ANOTHER thread of the requester's side inside the window of `_async_request`
+    wlines, wres = [], []
+    for case in window_cases():
+        res = run_window(case["request"], case["gate"])           # Infrastructure propagates: exit 2
+        wres.append((case, res))
+        wlines.append("ledger run 0 0 iA%s dB FB%s:%d dA" % ("s" if case["request"] == "sync_value" else "a",
+                                                            "x" if case["request"] == "async_exception" else "v",
+                                                            5 if case["request"] == "async_exception" else 12))
+    try:
+        wouts = run_driver(wlines, exe="drv_proto")
+    except DriverError as ex:
+        c.error = str(ex)
+        return c
+    for (case, res), line, got in zip(wres, wlines, wouts):
+        if res["outcome"] == "skipped":
+            c.count("window:skipped")
+            continue
+        c.evaluations += 1
+        c.count("window-gate:" + case["gate"])
+        c.count("window-request:" + case["request"])
+        pm = parse_model(got)
+        mod = "delivered=" + ",".join(re.sub(r"^\d+", "", x) for x in (pm["resA"] if pm else ["?"]))
+        impl = "delivered=" + res["outcome"]
+        c.signatures.add("window|%s|%s|%s" % (case["request"], case["gate"], impl))
+        if impl != mod or window_oracle(res):
+            c.disagreements.append(dict(case=case, impl=impl, model=mod, ops=line,
+                                        notes=["other thread's serve(): %r" % (res["pumped_dispatch"],)], usable=None))
     c.exhaustive = False
     return c
 
@@ -929,6 +1154,9 @@ def oracle(run):
                 return ("%s: handler produced %s/%d, requester got %s/%d" % (who, o, p, kind, payload), "C08:misrouted")
     # a duplicate hand-built response for an answered request must not reach anybody
     for cid, (first, now) in obs.get("final", {}).items():
+        if first != now and now[0] == "TO":
+            return ("request cid %s was answered (%r, stored in its result) but reading the result later reports a timeout"
+                    % (cid, first), "C08:stored-response-reported-as-timeout")
         if first != now:
             return ("asynchronous request cid %s was given %r and later holds %r: a second response was delivered to it"
                     % (cid, first, now), "C08:second-response-delivered")
@@ -981,6 +1209,18 @@ def oracle_search(ctx, corr, broken):
             return (dict(kind="history", program=small), res2[0], res2[1])
         return None
 
+    def check_window(case):
+        res = run_window(case["request"], case["gate"])
+        w = window_oracle(res)
+        if w and w[1] not in getattr(ctx, "known_signatures", set()):
+            return (case, w[0], w[1])
+        return None
+
+    for d in corr.disagreements[:50]:
+        if d.get("case", {}).get("kind") == "window":
+            f = check_window(d["case"])
+            if f:
+                return f
     for d in corr.disagreements[:50]:
         prog = d.get("case", {}).get("program")
         if prog:
@@ -989,6 +1229,10 @@ def oracle_search(ctx, corr, broken):
                 return f
     for prog in boundary_programs():
         f = check(prog)
+        if f:
+            return f
+    for case in window_cases():
+        f = check_window(case)
         if f:
             return f
     i = 0
@@ -1002,6 +1246,10 @@ def oracle_search(ctx, corr, broken):
 
 
 def replay(case):
+    if case.get("kind") == "window":
+        res = run_window(case["request"], case["gate"])
+        w = window_oracle(res)
+        return dict(case=case, implementation=res, oracle=w[0] if w else "holds")
     prog = case["program"]
     run, line = run_case(prog)
     out = dict(case=case)
